@@ -120,7 +120,13 @@ def finish(ctx, level_explanation, trusted_base, files, replay_key=None):
             kf.append((f, known_keys[(f.prop, f.key)]))
         else:
             viol.append(f)
-    fdir = os.path.join(VERIF, "evidence", "findings")
+    official = os.path.abspath(ctx.root) == "/repo" and replay_key is None
+    if official:
+        fdir = os.path.join(VERIF, "evidence", "findings")
+    else:
+        import tempfile
+
+        fdir = os.path.join(tempfile.gettempdir(), f"vsa-findings-{os.getpid()}")
     os.makedirs(fdir, exist_ok=True)
     lines = []
     for f, k in kf:
@@ -172,7 +178,7 @@ def finish(ctx, level_explanation, trusted_base, files, replay_key=None):
         "violations": len(viol),
     }
     os.makedirs(os.path.join(VERIF, "evidence"), exist_ok=True)
-    if replay_key is None:
+    if official:
         with open(os.path.join(VERIF, "evidence", f"{ctx.prop}.json"), "w") as fh:
             json.dump(ev, fh, indent=1, default=str)
     for l in lines:
